@@ -1,7 +1,9 @@
 import PytezosModel.Michelson.Session
-/-! helper lemmas for C22: values and references, the heap as a store, and the simulation of the heap run of a
-well-formed session state (every stacked big map points at the interpreter's context) by the aliasing-free run over a
-single context (`unitStore`) -/
+/-! helper lemmas for C22: values and references, the heap as a store, `MichelsonStack` primitives under renaming of the
+items, the simulation of the heap run of a well-formed session state (every stacked big map points at the interpreter's
+context) by the aliasing-free run over a single context (`unitStore`) — leaves first, then lifted through DIP bodies —
+and the bookkeeping of the `protected` counter (back where it was, or 0, after every successful instruction) -/
+set_option linter.unusedSimpArgs false   -- `cases x <;> simp [...]`: not every branch needs every lemma
 namespace Proofs.C22
 open Impl.Session Impl.BigMap
 
